@@ -77,6 +77,7 @@ type FuncContract struct {
 	Line      int
 	Requires  []Clause
 	Exits     []Clause // checked at every normal return; may name locals (their final values); never assumed by callers
+	PostAssumes []Clause // unchecked facts about the result, assumed at call sites only (a partly trusted contract); always reported
 	Assumes   []Clause // unchecked assumptions at entry (machine-arithmetic bounds); never imposed on callers, always reported
 	Ensures   []Clause
 	Modifies  []*SExpr
@@ -160,7 +161,7 @@ var clauseKeywords = map[string]bool{
 	"loop": true, "inline": true, "mode": true, "recovers": true, "diverges": true, "trusted": true,
 	"nosafe": true, "use": true, "monitor": true, "ghost": true, "case": true, "secret": true,
 	"sink": true, "flag": true, "const": true, "protects": true, "invariant": true, "abstract": true,
-	"inlinecalls": true, "inst": true, "reveal": true, "shared": true, "ghostvar": true, "zerofact": true, "rows": true, "oracle": true, "row": true, "writeset": true, "exit": true,
+	"inlinecalls": true, "inst": true, "reveal": true, "shared": true, "ghostvar": true, "zerofact": true, "rows": true, "oracle": true, "row": true, "writeset": true, "exit": true, "postassume": true,
 }
 
 func firstWord(s string) string {
@@ -403,6 +404,15 @@ func ParseContractFile(path string) (*ContractFile, error) {
 				return nil, fail(l, "assumes needs a function and a label")
 			}
 			curF.Assumes = append(curF.Assumes, c)
+		case w == "postassume":
+			c, err := parseClause(l, rest)
+			if err != nil {
+				return nil, err
+			}
+			if curF == nil || c.Label == "" {
+				return nil, fail(l, "postassume needs a function and a label")
+			}
+			curF.PostAssumes = append(curF.PostAssumes, c)
 		case w == "exit":
 			c, err := parseClause(l, rest)
 			if err != nil {
